@@ -21,7 +21,7 @@ def native_plan(tier):
     bin_dom = 'every sequence of <= %d events {derive (a, b) over 4 items, end of iteration, end of stratum} + a closing stratum end, binary trrel provider'
     ter_dom = 'every sequence of <= %d events {derive (k, a, b) over 2 keys x 3 items, end of iteration, end of stratum} + a closing stratum end, ternary trrel provider (both reverse maps)'
     if tier == 'thorough':
-        return [('trrel_protocol_le5', ';'.join(['0-18'] * 5), bin_dom % 5), ('trrel_ternary_protocol_le5', ';'.join(['0-20'] * 5), ter_dom % 5)]
+        return [('trrel_protocol_le6', ';'.join(['0-18'] * 6), bin_dom % 6), ('trrel_ternary_protocol_le6', ';'.join(['0-20'] * 6), ter_dom % 6)]
     return [('trrel_protocol_le4', ';'.join(['0-18'] * 4), bin_dom % 4), ('trrel_ternary_protocol_le4', ';'.join(['0-20'] * 4), ter_dom % 4)]
 
 
@@ -37,11 +37,11 @@ def run(pid, tier):
             crate, _ = unit_uf.prepare_crate()
             binary, _ = kani.build_native(crate, 'ufcheck')
             def one(p):
-                to = 300 if tier == 'quick' else 2400
-                if p[0].startswith('eqrel_direct') or tier == 'thorough':
-                    return p, kani.native_exhaust_sharded(binary, p[0], p[1], shards=10 if p[0].startswith('eqrel_direct') else 6, timeout=to)
+                to = 300 if tier == 'quick' else 7200
+                if tier == 'thorough':
+                    return p, kani.native_exhaust_sharded(binary, p[0], p[1], shards=16, timeout=to)
                 return p, kani.native_exhaust(binary, p[0], p[1], timeout=to)
-            with ThreadPoolExecutor(max_workers=3) as ex2:
+            with ThreadPoolExecutor(max_workers=2 if tier == 'quick' else 1) as ex2:
                 for (h, alpha, dom), r in ex2.map(one, native_plan(tier)):
                     native[h] = dict(r, domain=dom)
                     for f in r['failures']:
@@ -117,4 +117,7 @@ def run(pid, tier):
         'property statement is the separate obligation *_cycles_imply_reflexive_pairs, listed as a known finding',
         'the generated code around the provider is not covered',
     ]
+    if tier == 'thorough' and v.get('path') and v['status'] == 'ok':
+        import os
+        out.coverage['proof_stability_under_smt_seeds'] = {os.path.basename(v['path']): common.stability_sweep(v['path'], seeds=(1, 2, 3, 4, 5))}
     return out.finish()
